@@ -87,9 +87,31 @@ func c02IsGlobalLoad(v ssa.Value) (string, bool) {
 // errors.New / fmt.Errorf, or the load of a package-level error variable
 // (sentinels are assumed non-nil, see Assumptions).
 func c02ErrShapeNonNil(v ssa.Value) bool {
+	return c02ErrShapeNonNilD(v, 0)
+}
+
+func c02ErrShapeNonNilD(v ssa.Value, depth int) bool {
 	switch x := v.(type) {
 	case *ssa.Call:
-		return callIs(x, "errors", "", "New") || callIs(x, "fmt", "", "Errorf")
+		if callIs(x, "errors", "", "New") || callIs(x, "fmt", "", "Errorf") {
+			return true
+		}
+		// a function/closure whose body is known and all of whose returns are non-nil by construction (an error-wrapping helper)
+		if h := staticCallee(x); h != nil && len(h.Blocks) > 0 && depth < 3 && h.Signature.Results().Len() == 1 {
+			n, all := 0, true
+			allInstrs(h, func(in ssa.Instruction) {
+				ret, ok := in.(*ssa.Return)
+				if !ok || len(ret.Results) != 1 || (len(ret.Block().Preds) == 0 && ret.Block().Index != 0) {
+					return
+				}
+				n++
+				if !c02ErrShapeNonNilD(ret.Results[0], depth+1) {
+					all = false
+				}
+			})
+			return n > 0 && all
+		}
+		return false
 	case *ssa.MakeInterface:
 		return true // a concrete value boxed into an error interface is non-nil as an interface
 	}
@@ -414,15 +436,99 @@ func c02ReturnDeps(p *Prog, fn *ssa.Function, depth int) map[int]bool {
 type c02Env struct {
 	bind  map[ssa.Value]ssa.Value // phi -> value it received on the last entry of its block
 	known map[ssa.Value]bool      // boolean facts
+	facts map[string]c02ExprFact  // facts about comparisons, keyed by a canonical form of the expression (value numbering: two syntactically separate tests of the same operands agree)
+}
+
+type c02ExprFact struct {
+	val bool
+	ops []ssa.Value
+}
+
+// c02CanonCmp brings a comparison into a canonical form: equality with sorted
+// operands, or "x < y" (x <= y is !(y < x)), or "x < K" for an integer
+// constant K (x <= c is x < c+1, x > c is !(x < c+1), x >= c is !(x < c)).
+// pol is the truth value the canonical expression has when cond is true.
+func (e *c02Env) c02CanonCmp(cond ssa.Value) (key string, pol bool, ops []ssa.Value, ok bool) {
+	bo, isBo := cond.(*ssa.BinOp)
+	if !isBo {
+		return "", false, nil, false
+	}
+	x, y := e.resolve(bo.X), e.resolve(bo.Y)
+	intConst := func(v ssa.Value) (int64, bool) {
+		k, isK := v.(*ssa.Const)
+		if !isK || k.Value == nil || k.Value.Kind() != constant.Int {
+			return 0, false
+		}
+		return constant.Int64Val(k.Value)
+	}
+	op := bo.Op
+	switch op {
+	case token.EQL, token.NEQ:
+		a, b := x.Name(), y.Name()
+		if _, isK := x.(*ssa.Const); isK {
+			a = "const " + a
+		}
+		if _, isK := y.(*ssa.Const); isK {
+			b = "const " + b
+		}
+		if a > b {
+			a, b = b, a
+		}
+		return "eq|" + a + "|" + b, op == token.EQL, []ssa.Value{x, y}, true
+	case token.LSS, token.LEQ, token.GTR, token.GEQ:
+	default:
+		return "", false, nil, false
+	}
+	if c, isC := intConst(x); isC {
+		// constant on the left: mirror
+		_ = c
+		x, y = y, x
+		switch op {
+		case token.LSS:
+			op = token.GTR
+		case token.GTR:
+			op = token.LSS
+		case token.LEQ:
+			op = token.GEQ
+		case token.GEQ:
+			op = token.LEQ
+		}
+	}
+	if c, isC := intConst(y); isC {
+		switch op {
+		case token.LSS:
+			return fmt.Sprintf("ltc|%s|%d", x.Name(), c), true, []ssa.Value{x}, true
+		case token.LEQ:
+			return fmt.Sprintf("ltc|%s|%d", x.Name(), c+1), true, []ssa.Value{x}, true
+		case token.GTR:
+			return fmt.Sprintf("ltc|%s|%d", x.Name(), c+1), false, []ssa.Value{x}, true
+		case token.GEQ:
+			return fmt.Sprintf("ltc|%s|%d", x.Name(), c), false, []ssa.Value{x}, true
+		}
+	}
+	switch op {
+	case token.LSS:
+		return "lt|" + x.Name() + "|" + y.Name(), true, []ssa.Value{x, y}, true
+	case token.GEQ:
+		return "lt|" + x.Name() + "|" + y.Name(), false, []ssa.Value{x, y}, true
+	case token.GTR:
+		return "lt|" + y.Name() + "|" + x.Name(), true, []ssa.Value{x, y}, true
+	case token.LEQ:
+		return "lt|" + y.Name() + "|" + x.Name(), false, []ssa.Value{x, y}, true
+	}
+	return "", false, nil, false
 }
 
 func (e *c02Env) clone() *c02Env {
-	n := &c02Env{bind: map[ssa.Value]ssa.Value{}, known: map[ssa.Value]bool{}}
+	n := &c02Env{bind: map[ssa.Value]ssa.Value{}, known: map[ssa.Value]bool{}, facts: map[string]c02ExprFact{}}
 	for k, v := range e.bind {
 		n.bind[k] = v
 	}
 	for k, v := range e.known {
 		n.known[k] = v
+	}
+	for k, v := range e.facts {
+		n.facts[k] = v
 	}
 	return n
 }
@@ -434,6 +540,9 @@ func (e *c02Env) key() string {
 	}
 	for k, v := range e.known {
 		parts = append(parts, fmt.Sprintf("%s:%v", k.Name(), v))
+	}
+	for k, v := range e.facts {
+		parts = append(parts, fmt.Sprintf("%s:%v", k, v.val))
 	}
 	sort.Strings(parts)
 	return strings.Join(parts, ",")
@@ -489,7 +598,7 @@ func (e *c02Env) eval(v ssa.Value) (val, known bool) {
 		}
 	case *ssa.BinOp:
 		if x.Op != token.EQL && x.Op != token.NEQ {
-			return false, false
+			break
 		}
 		if c02IsBool(x.X.Type()) {
 			a, ok1 := e.eval(x.X)
@@ -497,7 +606,7 @@ func (e *c02Env) eval(v ssa.Value) (val, known bool) {
 			if ok1 && ok2 {
 				return (a == b) == (x.Op == token.EQL), true
 			}
-			return false, false
+			break
 		}
 		// integer compared with the constant zero
 		var other ssa.Value
@@ -510,6 +619,11 @@ func (e *c02Env) eval(v ssa.Value) (val, known bool) {
 			if z, ok := e.intZeroness(other); ok {
 				return z == (x.Op == token.EQL), true
 			}
+		}
+	}
+	if key, pol, _, ok := e.c02CanonCmp(v); ok {
+		if f, have := e.facts[key]; have {
+			return f.val == pol, true
 		}
 	}
 	return false, false
@@ -541,6 +655,12 @@ func (e *c02Env) learn(cond ssa.Value, truth bool) {
 		}
 	}
 	e.known[cond] = truth
+	if key, pol, ops, ok := e.c02CanonCmp(cond); ok {
+		if e.facts == nil {
+			e.facts = map[string]c02ExprFact{}
+		}
+		e.facts[key] = c02ExprFact{val: truth == pol, ops: ops}
+	}
 }
 
 // enter updates the environment for the CFG edge from -> to: values defined
@@ -591,6 +711,14 @@ func (e *c02Env) enter(from, to *ssa.BasicBlock) {
 	for v := range redefined {
 		delete(e.known, v)
 		delete(e.bind, v)
+	}
+	for k, f := range e.facts {
+		for _, op := range f.ops {
+			if redefined[op] {
+				delete(e.facts, k)
+				break
+			}
+		}
 	}
 	for k, v := range newBind {
 		e.bind[k] = v
@@ -714,6 +842,23 @@ func c02OpaqueFlag(cond ssa.Value) bool {
 	case *ssa.BinOp:
 		if c02IsBool(x.X.Type()) {
 			return c02OpaqueFlag(x.X) || c02OpaqueFlag(x.Y)
+		}
+		// a comparison of data is a legitimate unknown — unless an operand is read from
+		// memory (a struct field, a captured variable): the explorer does not track memory,
+		// so a path that hinges on such a test is not positively established
+		for _, op := range []ssa.Value{x.X, x.Y} {
+			for i := 0; i < 3; i++ {
+				if cv, ok := op.(*ssa.Convert); ok {
+					op = cv.X
+					continue
+				}
+				break
+			}
+			if u, ok := op.(*ssa.UnOp); ok && u.Op == token.MUL {
+				if _, isGlobal := u.X.(*ssa.Global); !isGlobal {
+					return true
+				}
+			}
 		}
 		return false
 	case *ssa.Const:
